@@ -411,6 +411,10 @@ func (s *scen) extendStep(p *node) {
 			pl, tc := dupClass(p, tx)
 			c.Count(lv+"_replay_in_window_"+pl, 1)
 			c.Count(lv+"_replay_in_window_"+tc, 1)
+			if tx.ts >= a.bts+60000000 {
+				// beyond what the 1-minute patch-group constant would allow the origin block to hold
+				c.Count(lv+"_replay_in_window_ts_ge_origin_bts_plus_1min_"+pl, 1)
+			}
 			if a.finalized {
 				c.Count(lv+"_replay_in_window_finalized_"+s.be.cacheLabel(tx), 1)
 			}
